@@ -27,11 +27,24 @@ struct X {
     tie_timeout: bool,
 }
 
+/// "no deadline": requests with key 2 (per-request mode) get Duration::MAX
+const UNBOUNDED: u64 = u64::MAX / 4;
+
 fn timeout_of(per_request: bool, key: u8) -> u64 {
     if per_request && key == 1 {
         30
+    } else if per_request && key == 2 {
+        UNBOUNDED
     } else {
         20
+    }
+}
+
+fn dur(ms: u64) -> Duration {
+    if ms == UNBOUNDED {
+        Duration::MAX
+    } else {
+        Duration::from_millis(ms)
     }
 }
 
@@ -61,7 +74,7 @@ impl Scenario for Tl {
         let inner = GatedInner::new(w.inner.clone());
         let start: Box<dyn FnMut(Req) -> CallerFut> = if self.per_request {
             let layer = TimeLimiterLayer::builder()
-                .timeout_fn(|r: &Req| Duration::from_millis(timeout_of(true, r.key)))
+                .timeout_fn(|r: &Req| dur(timeout_of(true, r.key)))
                 .cancel_running_future(self.cancel)
                 .build();
             let svc = layer.layer(inner);
@@ -85,7 +98,7 @@ impl Scenario for Tl {
     }
     fn arrive_variants(&self, _w: &World, _x: &X, _c: usize) -> Vec<u8> {
         if self.per_request {
-            vec![0, 1]
+            vec![0, 1, 2]
         } else {
             vec![0]
         }
@@ -220,7 +233,25 @@ impl Scenario for Tl {
     fn epilogue(&self, w: &mut World, x: &mut X, out: &mut Vec<Viol>) -> String {
         let site = if self.cancel { "cancel_mode" } else { "background_mode" };
         // let every still-live caller run into its deadline without opening gates first
+        // (callers without a deadline get their inner result instead)
+        let per_request = self.per_request;
+        let open_unbounded = |w: &mut World| {
+            let unbounded: Vec<u32> = w.callers.iter().filter(|c| c.is_live()).filter_map(|c| c.req.clone()).filter(|r| timeout_of(per_request, r.key) == UNBOUNDED).map(|r| r.id).collect();
+            let ks: Vec<usize> = {
+                let g = w.inner.lock().unwrap();
+                g.calls.iter().filter(|k| unbounded.contains(&k.req.id) && k.status == CallStatus::Pending && k.gate.is_none()).map(|k| k.k).collect()
+            };
+            for k in ks {
+                w.complete(k, Out::Ok);
+            }
+        };
         for _ in 0..8 {
+            for c in 0..w.callers.len() {
+                if w.needs_poll(c) {
+                    w.poll_caller(c);
+                }
+            }
+            open_unbounded(w);
             for c in 0..w.callers.len() {
                 if w.needs_poll(c) {
                     w.poll_caller(c);
